@@ -36,6 +36,14 @@ pub enum Scen {
     S2,
     /// waiters: closed / stopped / accept_bi / read_datagram / read / wait_idle pending until close
     S3,
+    /// 0-RTT with a ticket, server accepts early data: early writes on a uni stream, more after
+    S4a,
+    /// 0-RTT with a ticket, server rejects: stale early handles must be inert, the retry on a
+    /// fresh stream (same id) must be delivered exactly
+    S4r,
+    /// two client tasks share a 1000-byte datagram send buffer and send 600-byte datagrams with
+    /// `send_datagram_wait`: each wakeup may find the buffer taken again by the other task
+    S5,
 }
 
 impl Scen {
@@ -45,10 +53,13 @@ impl Scen {
             Scen::S1w => "S1w",
             Scen::S2 => "S2",
             Scen::S3 => "S3",
+            Scen::S4a => "S4a",
+            Scen::S4r => "S4r",
+            Scen::S5 => "S5",
         }
     }
     pub fn parse(s: &str) -> Option<Self> {
-        [Scen::S1, Scen::S1w, Scen::S2, Scen::S3].into_iter().find(|x| x.name() == s)
+        [Scen::S1, Scen::S1w, Scen::S2, Scen::S3, Scen::S4a, Scen::S4r, Scen::S5].into_iter().find(|x| x.name() == s)
     }
 }
 
@@ -1134,6 +1145,198 @@ async fn s3_server_conn(o: Arc<Obs>, inc: Incoming, ep: Endpoint) {
 // ---------------------------------------------------------------------------------------------
 // Server accept loop (all scenarios)
 
+// ---------------------------------------------------------------------------------------------
+// S4a / S4r: 0-RTT
+
+const S4_EARLY: &[u8] = b"EARLY-request-written-before-the-handshake-completed;";
+const S4_TAIL: &[u8] = b"tail-written-after-the-handshake;";
+const S4_RETRY1: &[u8] = b"RETRY-first-half;";
+const S4_RETRY2: &[u8] = b"retry-second-half.";
+
+async fn s4_client(o: Arc<Obs>, ep: Endpoint, cc: ClientConfig, saddr: SocketAddr) {
+    let connecting = match ep.connect_with(cc, saddr, "localhost") {
+        Ok(c) => c,
+        Err(e) => return o.fail("O1:connect-call", format!("connect_with: {e:?}")),
+    };
+    let conn = match connecting.into_0rtt() {
+        Ok(x) => x,
+        Err(_) => return o.fail("O7:0rtt-unavailable", "into_0rtt() failed although the client holds a ticket".into()),
+    };
+    let mut early = match aw!(o, "cli.open_uni.early", conn.open_uni()) {
+        Ok(s) => s,
+        Err(e) => return o.fail("O1:open_uni", format!("early open_uni: {}", cerr(&e))),
+    };
+    let early_id = sid(early.id());
+    if let Err(e) = aw!(o, "cli.write.early", early.write_all(S4_EARLY)) {
+        return o.fail("O7:early-write", format!("write on the early stream before the handshake completed: {e:?}"));
+    }
+    if let Err(e) = aw!(o, "cli.authenticated", conn.authenticated()) {
+        return o.fail("O1:connect", format!("authenticated(): {}", cerr(&e)));
+    }
+    let ok = o.scen == Scen::S4a;
+    if ok {
+        if let Err(e) = aw!(o, "cli.write.tail", early.write_all(S4_TAIL)) {
+            return o.fail("O7:tail-write", format!("write after accepted 0-RTT: {e:?}"));
+        }
+        if let Err(e) = early.finish() {
+            return o.fail("O2:finish", format!("finish: {e:?}"));
+        }
+        match aw!(o, "cli.stopped", early.stopped()) {
+            Ok(None) => {}
+            r => return o.fail("O1:stopped", format!("stopped() on the finished early stream: {r:?}")),
+        }
+    } else {
+        // the stale handle reports the rejection and nothing else
+        match aw!(o, "cli.write.stale", early.write(b"x")) {
+            Err(quinn::WriteError::ZeroRttRejected) => {}
+            r => return o.fail("O7:stale-handle", format!("write on an early stream after rejection returned {r:?}, expected Err(ZeroRttRejected)")),
+        }
+        let mut s2 = match aw!(o, "cli.open_uni.retry", conn.open_uni()) {
+            Ok(s) => s,
+            Err(e) => return o.fail("O1:open_uni", format!("open_uni after rejection: {}", cerr(&e))),
+        };
+        if sid(s2.id()) != early_id {
+            o.note("retry_stream_has_other_id", 1);
+        }
+        if let Err(e) = aw!(o, "cli.write.retry1", s2.write_all(S4_RETRY1)) {
+            return o.fail("O7:retry-write", format!("first write on the fresh stream: {e:?}"));
+        }
+        // the stale early handle goes away while the fresh stream (same id) is in use
+        drop(early);
+        if let Err(e) = aw!(o, "cli.write.retry2", s2.write_all(S4_RETRY2)) {
+            return o.fail("O7:retry-write", format!("second write on the fresh stream after the stale early handle was dropped: {e:?}"));
+        }
+        if let Err(e) = s2.finish() {
+            return o.fail("O7:retry-finish", format!("finish on the fresh stream after the stale early handle was dropped: {e:?}"));
+        }
+        match aw!(o, "cli.stopped", s2.stopped()) {
+            Ok(None) => {}
+            r => return o.fail("O1:stopped", format!("stopped() on the finished retry stream: {r:?}")),
+        }
+    }
+    conn.close(VarInt::from_u32(0), b"done");
+    let e = aw!(o, "cli.closed", conn.closed());
+    if cerr(&e) != "local" {
+        o.fail("O1:closed", format!("client closed() = {}, expected LocallyClosed", cerr(&e)));
+    }
+    drop(conn);
+    aw!(o, "cli.wait_idle", ep.wait_idle());
+    drop(ep);
+    o.stage("done");
+}
+
+async fn s4_server_conn(o: Arc<Obs>, inc: Incoming, ep: Endpoint) {
+    let conn = match aw!(o, "srv.handshake", inc.into_future()) {
+        Ok(c) => c,
+        Err(e) => {
+            ep.close(VarInt::from_u32(77), b"ep");
+            return o.fail("O1:accept", format!("incoming.await: {}", cerr(&e)));
+        }
+    };
+    let mut r = match aw!(o, "srv.accept_uni", conn.accept_uni()) {
+        Ok(r) => r,
+        Err(e) => {
+            ep.close(VarInt::from_u32(77), b"ep");
+            return o.fail("O1:accept_uni", format!("accept_uni: {}", cerr(&e)));
+        }
+    };
+    let got = match aw!(o, "srv.read_to_end", r.read_to_end(4096)) {
+        Ok(v) => v,
+        Err(e) => {
+            ep.close(VarInt::from_u32(77), b"ep");
+            return o.fail("O2:read", format!("read_to_end: {e:?}"));
+        }
+    };
+    let want: Vec<u8> = if o.scen == Scen::S4a { [S4_EARLY, S4_TAIL].concat() } else { [S4_RETRY1, S4_RETRY2].concat() };
+    if got != want {
+        o.fail(
+            "O7:0rtt-data",
+            format!("server application read {:?}, expected {:?}", String::from_utf8_lossy(&got), String::from_utf8_lossy(&want)),
+        );
+    }
+    let e = aw!(o, "srv.closed", conn.closed());
+    if cerr(&e) != "app(0,\"done\")" {
+        o.note(&format!("srv_closed:{}", cerr(&e)), 1);
+    }
+    drop(conn);
+    ep.close(VarInt::from_u32(0), b"");
+    o.stage("done");
+}
+
+// ---------------------------------------------------------------------------------------------
+// S5: contended datagram send buffer
+
+const S5_PER_TASK: u16 = 3;
+
+async fn s5_sender(o: Arc<Obs>, conn: quinn::Connection, who: u16, latch: Arc<Latch>) {
+    for i in 0..S5_PER_TASK {
+        let tag = who * 16 + i;
+        if let Err(e) = op!(o, "w.send_datagram_wait", conn.send_datagram_wait(Bytes::from(dgram_payload(tag, 600)))) {
+            o.fail("O2:send_datagram_wait", format!("sender {who} datagram {i}: {e:?}"));
+            break;
+        }
+    }
+    latch.arrive();
+    o.stage("done");
+}
+
+async fn s5_client(o: Arc<Obs>, ep: Endpoint, cc: ClientConfig, saddr: SocketAddr) {
+    let connecting = match ep.connect_with(cc, saddr, "localhost") {
+        Ok(c) => c,
+        Err(e) => return o.fail("O1:connect-call", format!("connect_with: {e:?}")),
+    };
+    let conn = match aw!(o, "cli.connect", connecting) {
+        Ok(c) => c,
+        Err(e) => return o.fail("O1:connect", format!("connect failed: {}", cerr(&e))),
+    };
+    let latch = Arc::new(Latch::default());
+    for who in [1u16, 2] {
+        o.world.spawn_app(&format!("cli.sender{who}"), s5_sender(o.clone(), conn.clone(), who, latch.clone()));
+    }
+    aw!(o, "cli.join", latch.wait(2));
+    // the peer closes once it has everything
+    let e = aw!(o, "cli.closed", conn.closed());
+    if cerr(&e) != "app(0,\"got-all\")" {
+        o.fail("O1:closed", format!("client closed() = {}, expected the server's close after it received every datagram", cerr(&e)));
+    }
+    drop(conn);
+    aw!(o, "cli.wait_idle", ep.wait_idle());
+    drop(ep);
+    o.stage("done");
+}
+
+async fn s5_server_conn(o: Arc<Obs>, inc: Incoming, ep: Endpoint) {
+    let conn = match aw!(o, "srv.handshake", inc.into_future()) {
+        Ok(c) => c,
+        Err(e) => {
+            ep.close(VarInt::from_u32(77), b"ep");
+            return o.fail("O1:accept", format!("incoming.await: {}", cerr(&e)));
+        }
+    };
+    let mut seen = std::collections::BTreeSet::new();
+    while seen.len() < 2 * S5_PER_TASK as usize {
+        match op!(o, "srv.read_datagram", conn.read_datagram()) {
+            Ok(d) => {
+                let tag = if d.len() >= 2 { ((d[0] as u16) << 8) | d[1] as u16 } else { 0 };
+                if d[..] != dgram_payload(tag, 600)[..] {
+                    o.fail("O2:datagram-corrupt", format!("datagram tag {tag} len {} differs from what was sent", d.len()));
+                }
+                if !seen.insert(tag) {
+                    o.fail("O2:datagram-dup", format!("datagram tag {tag} delivered twice"));
+                }
+            }
+            Err(e) => {
+                o.fail("O1:read_datagram", format!("server read_datagram after {} datagrams: {}", seen.len(), cerr(&e)));
+                break;
+            }
+        }
+    }
+    conn.close(VarInt::from_u32(0), b"got-all");
+    drop(conn);
+    ep.close(VarInt::from_u32(0), b"");
+    o.stage("done");
+}
+
 async fn accept_loop(o: Arc<Obs>, ep: Endpoint) {
     let mut n = 0u32;
     loop {
@@ -1152,6 +1355,8 @@ async fn accept_loop(o: Arc<Obs>, ep: Endpoint) {
             Scen::S1 | Scen::S1w => o.world.spawn_app(&name, s1_server_conn(o2, inc, e2)),
             Scen::S2 => o.world.spawn_app(&name, s2_server_conn(o2, inc, e2)),
             Scen::S3 => o.world.spawn_app(&name, s3_server_conn(o2, inc, e2)),
+            Scen::S4a | Scen::S4r => o.world.spawn_app(&name, s4_server_conn(o2, inc, e2)),
+            Scen::S5 => o.world.spawn_app(&name, s5_server_conn(o2, inc, e2)),
         };
     }
     op!(o, "srv.wait_idle", ep.wait_idle());
@@ -1187,6 +1392,17 @@ pub fn pair_cfg(scen: Scen) -> PairCfg {
         cfg.server.stream_recv_window = Some(1024);
         cfg.server.max_uni = Some(1);
     }
+    if scen == Scen::S5 {
+        cfg.client.dgram_send = Some(1000);
+    }
+    if matches!(scen, Scen::S4a | Scen::S4r) {
+        // a ticket remembering the server's (real) transport parameters
+        static REMEMBERED: std::sync::OnceLock<Vec<u8>> = std::sync::OnceLock::new();
+        let base_cfg = cfg.clone();
+        let params = REMEMBERED.get_or_init(|| vx::checks::c17::remembered(Instant::now(), &base_cfg)).clone();
+        cfg.ticket = Some(mtls::Ticket { server_params: params, secret: [5; 16] });
+        cfg.accept_early = scen == Scen::S4a;
+    }
     cfg
 }
 
@@ -1218,6 +1434,8 @@ pub fn run_spec(base: Instant, spec: &Spec, keep_trace: bool) -> Outcome {
             Scen::S1 | Scen::S1w => world.spawn_app("cli.main", s1_client(obs.clone(), cep, cc, saddr)),
             Scen::S2 => world.spawn_app("cli.main", s2_client(obs.clone(), cep, cc, saddr)),
             Scen::S3 => world.spawn_app("cli.main", s3_client(obs.clone(), cep, cc, saddr)),
+            Scen::S4a | Scen::S4r => world.spawn_app("cli.main", s4_client(obs.clone(), cep, cc, saddr)),
+            Scen::S5 => world.spawn_app("cli.main", s5_client(obs.clone(), cep, cc, saddr)),
         };
         drop(rt);
         world.block_send_at(spec.send_block);
